@@ -643,14 +643,14 @@ pub fn run(seed: u64, tier: &str, w: &mut dyn Write) -> usize {
     let mut corpus: Vec<(String, Program, CircuitConfig)> = vec![];
     for (ci, (name, cfg)) in configs().into_iter().enumerate() {
         for rep in 0..(if thorough { 3 } else { 1 }) {
-            let kinds = [31u32, 15, 17, 7][(ci + rep) % 4] | if rep == 0 { 16 } else { 0 };
+            let kinds = [63u32, 15, 49, 39][(ci + rep) % 4] | if rep == 0 { 16 } else { 0 };
             let size = [24usize, 60, 8][rep] + r.below(8) as usize;
             let size = if name == "standard" { size.min(30) } else { size };
             corpus.push((format!("{name}.{rep}"), gen_program(&mut r, size, kinds), cfg.clone()));
         }
     }
-    corpus.push(("wide.0".into(), gen_program(&mut r, 20, 31), wide_config()));
-    corpus.push(("narrow.0".into(), gen_program(&mut r, 20, 31), narrow_config()));
+    corpus.push(("wide.0".into(), gen_program(&mut r, 20, 63), wide_config()));
+    corpus.push(("narrow.0".into(), gen_program(&mut r, 20, 63), narrow_config()));
     let only = std::env::var("VERIF_ONLY").ok();
     for (name, p, cfg) in &corpus {
         if only.as_ref().map_or(false, |o| !name.starts_with(o.as_str())) { continue; }
